@@ -167,7 +167,7 @@ HARNESSES = [
       bounds="T8 (4 reactions, 4 genes); %d analyses; one symbolic reaction (EX_A / DM_B: infeasible instances occur); objective "
              "DM_B max/min or empty min; a gene already knocked out or not; inside/outside a user context; each analysis called twice"
              % len(QUICK)),
-    H("c13_thorough", c13_thorough, tiers=("thorough",), thorough=dict(max_paths=600000, time_budget=900), witness_every=200,
+    H("c13_thorough", c13_thorough, tiers=("thorough",), thorough=dict(max_paths=600000, time_budget=700), witness_every=200,
       bounds="%d analyses incl. loopless FVA, fastcc, open-exchange blocked search, essential reactions, summaries; two symbolic "
              "reactions" % len(ANALYSES)),
     H("c13_geometric", c13_geometric, tiers=("thorough",), thorough=dict(max_paths=20000, time_budget=300), witness_every=50,
